@@ -333,6 +333,7 @@ class TermGen:
         self.allow_svar = allow_svar
         self.base = [T for T in (BoolType, NatType, IntType, RealType) if T.name in sig.tycons]
         self.numeric = [T for T in (NatType, IntType, RealType) if T.name in sig.tycons]
+        self.extra_base = [TConst(n) for n, k in sorted(sig.tycons.items()) if k == 0 and n not in ("bool", "nat", "int", "real")]
         self.tva, self.tvb = TVar("a"), TVar("b")
         # index: constant -> (arg types, result) of the declared type
         self.decl = {n: strip_fun(T) for n, T in sig.consts.items()}
@@ -347,6 +348,8 @@ class TermGen:
                 # type variables with unusual names: '_t0 looks like an internal variable of type inference but is
                 # an ordinary TVar; schematic ?'a / ?'t0 are ordinary too (only ?'_t<n> is reserved, see `reserved`)
                 return self.rng.choice([TVar("_t0"), TVar("t1"), STVar("a"), STVar("t0"), TVar("_t")])
+            if self.extra_base and self.rng.random() < 0.15:
+                return self.rng.choice(self.extra_base)      # char, string, rat, ... (nullary type constructors of the theory)
             return self.rng.choice(self.base + [self.tva, self.tva, self.tvb])
         if r < 0.70 and "set" in self.sig.tycons:
             return TConst("set", self.rand_type(depth - 1))
